@@ -32,6 +32,10 @@ def pb_term(ctx):
     return one_path(ctx, OIL + "pressure_bubblepoint_Standing", [T, api, gg, R]).value
 
 
+def real_pb_ok(pt):
+    return real(OIL + "pressure_bubblepoint_Standing")(pt["T"], pt["api"], pt["gg"], pt["R"]) > 50
+
+
 def build(ctx):
     opaque_z(ctx)
     obs = []
@@ -200,6 +204,14 @@ def build(ctx):
         return v, None
 
     obs.append(Obligation("oil.co_branch", "oil_compressibility_Standing switches between its two forms exactly at p >= p_b", lambda: co_branch()[0], cofs, "SMT"))
+
+    from ..xcheck import scalar_xcheck
+    oilok = lambda pt: real_pb_ok(pt)
+    for q_, an, bx in ((WATER + "b_water_McCain", ["T", "p"], {"T": WATER_BOX["T"], "p": WATER_BOX["p"]}), (WATER + "b_water_McCain_dp", ["T", "p"], {"T": WATER_BOX["T"], "p": WATER_BOX["p"]}),
+                       (OIL + "solution_gor_Standing", ["T", "p", "api", "gg", "R"], OILP), (OIL + "dgor_dpressure_Standing", ["T", "p", "api", "gg", "R"], OILP),
+                       (OIL + "b_o_bubblepoint_Standing", ["T", "api", "gg", "R"], OIL_BOX), (OIL + "db_o_dgor_Standing", ["T", "api", "gg", "R"], OIL_BOX)):
+        obs.append(scalar_xcheck(ctx, q_, an, bx, hyp_real=(oilok if "R" in an else None)))
+    obs.append(scalar_xcheck(ctx, OIL + "oil_compressibility_Standing", ["T", "p", "api", "gg", "R", "Tpc", "Ppc"], dict(OILP, Tpc=(-100.0, 20.0), Ppc=(600.0, 700.0)), hyp_real=lambda pt: real_pb_ok(pt) and 1.1 <= (pt["T"] + 459.67) / (pt["Tpc"] + 459.67) <= 3, opaque_z=True))
 
     # ---- canary: a deliberately false derivative identity generated from the real code must be refuted
     def canary():
